@@ -100,6 +100,12 @@ RE_META = re.compile(
     re.IGNORECASE
 )
 
+# Comments and scripts: a tag spelled inside them is not an element
+RE_NO_ELEMENTS = re.compile(
+    r'<!--.*?-->|<script\b.*?</script\s*>',
+    re.IGNORECASE | re.DOTALL
+)
+
 RE_ENCODING = re.compile(
     br'encoding\s*=\s*(?:"|\')(?P<encoding>[\w.\-]+)(?:"|\')',
     re.IGNORECASE
@@ -152,7 +158,7 @@ def detect_encoding(
     if not isinstance(body, str):
         body = body.decode('ascii', 'ignore')
 
-    match = RE_META.search(body)
+    match = RE_META.search(RE_NO_ELEMENTS.sub('', body))
     if match is not None:
         return match.group(1), match.group(2)
 
